@@ -138,7 +138,7 @@ class System:
     self.stable = {p.tid: [n.id for n in p.nodes if (isinstance(n, ir.Op) and self.is_stable(p, n)) or n.id == p.entry] for p in self.programs}
     self.ends = {p.tid: [n.id for n in p.nodes if isinstance(n, ir.End)] for p in self.programs}
 
-  READS = {"is_set", "qsize", "full", "empty", "__len__", "getitem", "load", "contains", "values_contains", "snapshot", "snapshot_keys",
+  READS = {"get_default", "is_set", "qsize", "full", "empty", "__len__", "getitem", "load", "contains", "values_contains", "snapshot", "snapshot_keys",
            "snapshot_values", "is_alive", "iter", "next", "sleep"}
 
   def find_invisible(self):
